@@ -67,6 +67,16 @@ func route(path string, lines ...string) string {
 
 // ReloadPairs is the catalogue of configuration pairs (DESIGN.md C18 b).
 func ReloadPairs() []ReloadPair {
+	fw := forwardPairs()
+	out := append([]ReloadPair{}, fw...)
+	// every pair also in the other direction (thorough tier)
+	for _, p := range fw {
+		out = append(out, ReloadPair{Name: p.Name + "_rev", Old: p.New, New: p.Old, Probes: p.Probes})
+	}
+	return out
+}
+
+func forwardPairs() []ReloadPair {
 	hm := func(s string) string { return "auth hmac {\n    secret raw:" + s + "\n    tolerance 1h\n  }" }
 	big := strings.Repeat("x", 200)
 	return []ReloadPair{
@@ -460,9 +470,12 @@ func FailedReload(scratch string, pair ReloadPair, class string) (map[string]any
 
 // ReloadPilot measures, for every probe of every pair, the pure-old and pure-new answers and the number of
 // probe / reload segments (gate hits + 1) under the old configuration.
-func ReloadPilot(w io.Writer, scratch string) error {
+func ReloadPilot(w io.Writer, scratch string, rev bool) error {
 	enc := json.NewEncoder(w)
 	for _, pair := range ReloadPairs() {
+		if !rev && strings.HasSuffix(pair.Name, "_rev") {
+			continue
+		}
 		for _, p := range pair.Probes {
 			oldA, err := staticAnswer(scratch, pair.Old, p)
 			if err != nil {
